@@ -1436,8 +1436,104 @@ func genTlBindings(repo, out string) {
 
 func repoFlagPtr() *string { return repo }
 
-// genC10 writes Generated/TlSchema.v and Generated/TlBindings.v.
+// ---------------------------------------------------------------- copies of the primitive codecs
+
+// genTlCopies lists, for the packages that speak TL (tl, liteclient, liteapi,
+// liteapi/pool, ton, adnl), every function whose body contains the integer
+// literal 254 (the TL length-prefix escape) and every place where one of the
+// Bool constructor ids appears in either byte order.  Generated/TlCopies.v:
+//
+//	tl_length_sites : list (file * function)
+//	tl_bool_sites   : list (file * function-or-constant * literal)
+//
+// Properties/C10_gen.v pins the lists to the sites the harness drives, so that
+// a new hand-written copy of a primitive codec cannot appear unnoticed.
+func genTlCopies(repo, out string) {
+	saved := *repoFlagPtr()
+	*repoFlagPtr() = repo
+	defer func() { *repoFlagPtr() = saved }()
+	boolIDs := map[uint64]bool{0x997275b5: true, 0xbc799737: true, 0xb5757299: true, 0x379779bc: true}
+	var lenSites, boolSites []string
+	for _, dir := range []string{"tl", "liteclient", "liteapi", "liteapi/pool", "ton", "adnl"} {
+		ents, err := os.ReadDir(filepath.Join(repo, dir))
+		if err != nil {
+			continue
+		}
+		var names []string
+		for _, e := range ents {
+			n := e.Name()
+			if e.IsDir() || !strings.HasSuffix(n, ".go") || strings.HasSuffix(n, "_test.go") || strings.HasPrefix(n, "verif_hooks") {
+				continue
+			}
+			names = append(names, n)
+		}
+		sort.Strings(names)
+		for _, n := range names {
+			rel := dir + "/" + n
+			f := parse(rel)
+			for _, d := range f.f.Decls {
+				switch x := d.(type) {
+				case *ast.FuncDecl:
+					if x.Body == nil {
+						continue
+					}
+					fn := x.Name.Name
+					if rn, _ := c10RecvIdent(x); rn != "" {
+						fn = rn + "." + fn
+					}
+					has254 := false
+					ast.Inspect(x.Body, func(nd ast.Node) bool {
+						if bl, ok := nd.(*ast.BasicLit); ok && bl.Kind == token.INT {
+							if v, ok := intLit(bl); ok {
+								if v == 254 {
+									has254 = true
+								}
+								if boolIDs[v] {
+									boolSites = append(boolSites, fmt.Sprintf("(%s, %s, %d)", c10q(rel), c10q(fn), v))
+								}
+							}
+						}
+						return true
+					})
+					if has254 {
+						lenSites = append(lenSites, fmt.Sprintf("(%s, %s)", c10q(rel), c10q(fn)))
+					}
+				case *ast.GenDecl:
+					for _, sp := range x.Specs {
+						vs, ok := sp.(*ast.ValueSpec)
+						if !ok {
+							continue
+						}
+						for i, nm := range vs.Names {
+							if i >= len(vs.Values) {
+								continue
+							}
+							ast.Inspect(vs.Values[i], func(nd ast.Node) bool {
+								if bl, ok := nd.(*ast.BasicLit); ok && bl.Kind == token.INT {
+									if v, ok := intLit(bl); ok && boolIDs[v] {
+										boolSites = append(boolSites, fmt.Sprintf("(%s, %s, %d)", c10q(rel), c10q(nm.Name), v))
+									}
+								}
+								return true
+							})
+						}
+					}
+				}
+			}
+		}
+	}
+	var b bytes.Buffer
+	b.WriteString("(* GENERATED by harness/cmd/translate from /repo (tl, liteclient, liteapi, ton) — do not edit *)\n")
+	b.WriteString("From Coq Require Import String List NArith.\nImport ListNotations.\n")
+	b.WriteString("Local Open Scope string_scope.\nLocal Open Scope N_scope.\n\n")
+	b.WriteString("Definition tl_length_sites : list (string * string) := [\n  " + strings.Join(lenSites, ";\n  ") + "\n].\n\n")
+	b.WriteString("Definition tl_bool_sites : list (string * string * N) := [\n  " + strings.Join(boolSites, ";\n  ") + "\n].\n")
+	writeIfChanged(filepath.Join(out, "TlCopies.v"), b.Bytes())
+}
+
+// genC10 writes Generated/TlSchema.v, Generated/TlBindings.v and Generated/TlCopies.v.
 func genC10(repo, out string) {
 	genTlSchema(repo, out)
 	genTlBindings(repo, out)
+	genTlCopies(repo, out)
 }
